@@ -37,14 +37,14 @@ m = {
     "engines": [
         {"name": "lean-model+harness", "path": "lean/ + harness/ + check",
          "serves_properties": sorted(p for p in CLAIMS if CLAIMS[p].get("engine", "lean-model+harness") == "lean-model+harness"),
-         "kind_free_text": "Lean 4 model (Fc/*.lean), theorems (FcProps/*.lean, lemmas FcLemmas/*.lean), Rust correspondence harness over the real crate in std/alloc/no_std builds, compiled Lean driver comparing traces and evaluating the monitors the theorems are about"},
+         "kind_free_text": "Lean 4 model (Fc/*.lean), theorems (FcProps/*.lean, lemmas FcLemmas/*.lean), Rust correspondence harness over the real crate in std/alloc/no_std builds, compiled Lean driver comparing traces and evaluating the monitors the theorems are about; translator tools/rs2lean.py (+ tools/tuple_norm.py) from the crate's source to Lean (FcGen/KSrc*.lean) with refinement theorems FcProps/KTie*.lean for the waker kernel, the groups and every family x {array, Vec, tuple}"},
         {"name": "lean-autotraits+rustc-probes", "path": "tools/extract_types.py + tools/gen_autotraits.py + lean/FcGen + lean/Fc/AutoTraits.lean + probes/ + tools/c18_runner.py",
          "serves_properties": sorted(p for p in CLAIMS if CLAIMS[p].get("engine") == "lean-autotraits+rustc-probes"),
          "kind_free_text": "translator from rustc's macro-expanded source to a generated Lean environment of type declarations, Lean model of auto-trait derivation with theorems over the generated table, rustc probe crate"},
     ],
     "checks": checks,
     "not_applicable": [{"property_id": p, "reason": r} for p, r in sorted(NOT_APPLICABLE.items())],
-    "notes": "See DESIGN.md. Every claimed check: (1) rebuilds and audits the property's Lean theorems, (2) rebuilds the harness from /repo's working tree, (3) runs generated cases on the real code, diffs against the model and evaluates the property's monitor on the real traces.",
+    "notes": "See DESIGN.md. Every claimed check: (1) rebuilds and audits the property's Lean theorems, (2) rebuilds the harness from /repo's working tree, (3) runs generated cases on the real code, diffs against the model and evaluates the property's monitor on the real traces; (0) where the property has a static tie (tools/props.py: ktie) the check first translates the current source (tools/rs2lean.py; the macro-generated tuple containers through rustc's expansion and tools/tuple_norm.py) and rebuilds the tie theorems FcProps/KTie*.lean - a tie that no longer checks is a broken proof obligation, a source outside the translator's subset makes the tie `unavailable` and the dynamic check decides with an escalated budget.",
 }
 json.dump(m, open(os.path.join(ROOT, "MANIFEST.json"), "w"), indent=1)
 print("claimed:", sorted(CLAIMS), "not_applicable:", sorted(NOT_APPLICABLE))
